@@ -244,6 +244,19 @@ Section RangeProofs.
     pose proof (Z.mod_neg_bound (d_m4 rd) (-1) ltac:(lia)) as Hb.
     destruct (d_m4 rd mod -1 =? 0) eqn:E; [reflexivity|lia].
   Qed.
+  (* inside the INCLUSIVE range a <= v <= b (both ends included) the square root is defined: the builder never
+     refuses the value; it can only ask for other random draws *)
+  Lemma range_inside_not_refused_l v a b rd : a <= v <= b ->
+    create_attest_pair G gmul gone ginv g h Hsh v a b rd <> Raise ValueError.
+  Proof.
+    intros Hv. unfold create_attest_pair. cbv zeta.
+    set (mst := d_w rd * d_w rd * (v - a + 1) * (b - v + 1)).
+    assert (Hmst : 0 <= mst).
+    { unfold mst. assert (0 <= d_w rd * d_w rd) by nia. assert (0 <= (v - a + 1) * (b - v + 1)) by nia.
+      rewrite <- Z.mul_assoc. apply Z.mul_nonneg_nonneg; assumption. }
+    destruct (mst <? 0) eqn:E0; [lia|].
+    repeat match goal with |- (if ?c then _ else _) <> _ => destruct c end; discriminate.
+  Qed.
 End RangeProofs.
 
 (* the executable instance is an abelian group *)
